@@ -124,6 +124,7 @@ class C11(Prop):
     harness = "h_stats.c"
     theorems = ["EaselModel.Props.C11." + t for t in (
         "score2bin_interval", "bins_partition", "add_never_faults", "add_counts_once", "histogram_accounts", "bookkeeping_true",
+        "sorted_flag_sound", "tail_query_agrees", "rank_query_agrees", "tailmass_query_agrees",
         "exp_fit_closed_form", "exp_fit_is_maximiser", "gumbel_mu_is_maximiser", "lawless_is_derivative", "gumbel_complete_fit_stationary",
         "gumbel_censored_fit_stationary", "gumbel_loc_fits_closed_form", "gumbel_fits_terminate")]
     claimed = True
@@ -179,9 +180,37 @@ class C11(Prop):
                 return None          # the implementation died here; monitor() classifies it
             if b == "unmodelled":
                 continue
-            if a != b:
+            op = case["ops"][i] if i < len(case["ops"]) else ""
+            if a != b and op.startswith("fit") and case.get("meta", {}).get("mod") in ("allequal", "degenerate"):
+                # degenerate data (fewer than two distinct values): outside the property's quantifier except for termination and
+                # a status; the numbers returned are 0/0 artefacts, only the status has to agree
+                if a.split(" ")[0] == b.split(" ")[0]: continue
+            if a != b and not self.close(op, a, b):
                 return (i, a, b)
         return None
+
+    def close(self, op, a, b):
+        """Statuses, integers, counts and every copied value must agree exactly; COMPUTED doubles (fitted parameters, shifted bin
+        bounds, tail masses) may differ by a rounding-level relative error, so that a harmless re-association of floating-point
+        operations in the C code is not reported (measured on the clean tree: the two sides are bit-identical)."""
+        wa, wb = a.split(" "), b.split(" ")
+        if len(wa) != len(wb): return False
+        name = op.split()[0] if op else ""
+        rel = 1e-7 if name in ("fit", "hexpfit") else 1e-12
+        exact_keys = ("xmin", "xmax", "first", "last", "hash", "w")      # copies of input values: exact
+        for x, y in zip(wa, wb):
+            if x == y: continue
+            px, ex, vx = x.rpartition("="); py, ey, vy = y.rpartition("=")
+            if px != py or px in exact_keys: return False
+            if not (len(vx) == 16 and len(vy) == 16): return False
+            try:
+                fx, fy = fbits(vx), fbits(vy)
+            except ValueError:
+                return False
+            if name == "hrank": return False
+            if math.isnan(fx) or math.isnan(fy) or math.isinf(fx) or math.isinf(fy): return False
+            if abs(fx - fy) > rel * max(abs(fx), abs(fy)) + 1e-300: return False
+        return True
 
     def nontrivial(self, case, out):
         return len(out) >= 2 and any(l.startswith("ok") for l in out) and not any(l.startswith(("fault", "atexit")) for l in out)
@@ -410,7 +439,11 @@ class C11(Prop):
                 xs = [sh + (x - mu) * s for x in xs]; meta["mod"] = "scale%g" % s; meta["lambda"] = lam / s; meta["mu"] = sh
             elif mod < 0.34:
                 xs = [xs[0]] * len(xs); meta["mod"] = "allequal"
-            if rng.random() < 0.5: rng.shuffle(xs)
+            order = rng.random()
+            if order < 0.4: rng.shuffle(xs)
+            elif order < 0.6: xs = sorted(xs, reverse=True)          # smallest observation last
+            elif order < 0.7 and len(xs) > 2:                        # smallest observation last, the rest shuffled
+                xs = sorted(xs); m0 = xs.pop(0); rng.shuffle(xs); xs.append(m0)
             ops = ["data xs=" + ",".join(d(x) for x in xs)]
             kinds = {"exp": ["exp", "expscale", "gumbel", "weibull", "sxp"], "gumbel": ["gumbel", "gumbelloc", "gumbelcens", "gumbelcensloc", "gumbeltrunc", "exp"],
                      "weibull": ["weibull", "exp", "sxp", "gamma"], "lognormal": ["lognormal", "exp", "gumbel"], "gamma": ["gamma", "exp", "weibull"],
@@ -680,7 +713,15 @@ class C11(Prop):
                 return F("unparsable answer %r to %r" % (l[:60], op[:60]))
             documented = {"ok", "einval", "enoresult", "enohalt", "erange"}
             if st not in documented: return F("%s returned the undocumented status %s" % (kind, st))
-            if st != "ok": continue
+            if st != "ok":
+                # on the exact quantile grid of its own law (n >= 100, untouched) a fit has to succeed: "recovers that law's parameters"
+                # (Gumbel: only where exp(-lambda*x) stays inside the binary64 range - the fit is not shift-invariant numerically, L0)
+                if kind == "gamma" and meta.get("law") == "gamma" and meta.get("mod") == "none" and n >= 100 and all(x > fbits(a["a"]) for x in xs):
+                    return F("gamma fit failed with %s on %d values from esl_gam_Sample(mu=%r, lambda=%r, tau=%r)" % (st, n, meta.get("mu"), meta.get("lambda"), meta.get("tau")))
+                if (meta.get("src") == "grid" and meta.get("mod") == "none" and n >= 100 and kind == meta.get("law")
+                        and not (kind == "gumbel" and any(abs(meta["lambda"] * x) > 600 for x in xs))):
+                    return F("%s fit failed with %s on the exact %d-point quantile grid of %s(mu=%r, lambda=%r, tau=%r)" % (kind, st, n, kind, meta.get("mu"), meta.get("lambda"), meta.get("tau")))
+                continue
             if not distinct or n < 2: continue            # property quantifies over data with at least two distinct values
             if not all(math.isfinite(p) for p in ps):
                 if meta.get("mod") in ("degenerate", "allequal"): continue
@@ -765,33 +806,44 @@ class C11(Prop):
             elif kind == "weibull":
                 mu, lam, tau = ps
                 if mu != min(xs): return "weibull fit: mu=%r is not the smallest observation %r" % (mu, min(xs))
-                ll = lambda l, t: ll_weibull(xs, mu, l, t); p0 = (lam, tau); dd, rt = 0.05, 1e-3
+                ll = lambda l, t: ll_weibull(xs, mu, l, t); p0 = (lam, tau); dd, rt = 0.05, 1e-5
             elif kind == "sxp":
                 mu, lam, tau = ps
                 if mu != min(xs): return "stretched-exponential fit: mu=%r is not the smallest observation %r" % (mu, min(xs))
-                ll = lambda l, t: ll_sxp(xs, mu, l, t); p0 = (lam, tau); dd, rt = 0.05, 1e-3
+                # unbounded likelihood (mu pinned to the smallest sample): the optimiser runs off along the ridge; no maximiser exists
+                if lam * (max(xs) - min(xs)) > 1e8 or tau < 1e-3: return None
+                ll = lambda l, t: ll_sxp(xs, mu, l, t); p0 = (lam, tau); dd, rt = 0.05, 2e-3
             else:
                 phi = fbits(a["a"]); mu, lam = ps
                 # documented: "<phi> should not be much greater than <mu> ... or the fit will become unstable": mu is then undetermined
                 if meta.get("censfrac", 0.0) > 0.3 or phi > mu: return None
-                ll = lambda m, l: ll_gumbel_trunc(xs, m, l, phi); p0 = (mu, lam); dd, rt = 0.05, 3e-3
+                ll = lambda m, l: ll_gumbel_trunc(xs, m, l, phi); p0 = (mu, lam); dd, rt = 0.05, 2e-2
             if not (p0[1] > 0) or (kind != "gumbeltrunc" and not p0[0] > 0): return "%s fit returned eslOK with parameters %r" % (kind, ps)
             base = ll(*p0)
             if not math.isfinite(base): return None
-            for i in (0, 1):
-                for f in (-dd, dd):
-                    q = list(p0)
-                    q[i] = q[i] + f * (abs(q[i]) if (kind != "gumbeltrunc" or i == 1) else max(abs(q[i]), 1 / p0[1]))
-                    v = ll(*q)
-                    if v > base + rt * (abs(base) + n):
-                        return "%s fit (n=%d): logL%r=%r < logL%r=%r" % (kind, n, tuple(p0), base, tuple(q), v)
+            # local pattern search around the returned point (steps 10% .. 0.01% of each parameter): "not smaller than at nearby values"
+            unit = [abs(p0[0]) if kind != "gumbeltrunc" else max(abs(p0[0]), 1 / p0[1]), abs(p0[1])]
+            best, bp, step, evals = base, list(p0), 0.1, 0
+            while step > 1e-4 and evals < 240:
+                moved = False
+                for i in (0, 1):
+                    for sg in (1, -1):
+                        q = list(bp); q[i] = q[i] + sg * step * unit[i]
+                        v = ll(*q); evals += 1
+                        if v > best: best, bp, moved = v, q, True
+                if not moved: step /= 2
+            ratio = (best - base) / (abs(base) + n)
+            cal = self.__dict__.setdefault("_calib", {})
+            cal[kind] = max(cal.get(kind, 0.0), ratio)
+            if ratio > rt:
+                return "%s fit (n=%d): logL%r=%r but nearby %r has logL=%r" % (kind, n, tuple(p0), base, tuple(bp), best)
             if kind == "weibull" and meta.get("law") == "weibull" and meta.get("src") == "grid" and meta.get("mod") == "none" and n >= 300:
                 if abs(p0[0] / meta["lambda"] - 1) > 0.2 or abs(p0[1] / meta["tau"] - 1) > 0.2:
                     return "weibull fit on the exact quantile grid of (lambda=%r,tau=%r) recovered (%r,%r)" % (meta["lambda"], meta["tau"], p0[0], p0[1])
         return None
 
     def extra_evidence(self, ctx):
-        return {"input_distribution": getattr(self, "_dist", {})}
+        return {"input_distribution": getattr(self, "_dist", {}), "optimiser_fit_max_relative_logL_gap": getattr(self, "_calib", {})}
 
 
 SPEC = C11()
